@@ -1,5 +1,6 @@
 import Karp.Driver.ScenarioJson
 import Karp.Spec.Admissible
+import Karp.Model.Sched
 
 namespace Karp.Driver.C01
 open Lean Karp.Driver Karp.Driver.ScenarioJson Karp.Scn Karp.Spec.Admissible
@@ -21,8 +22,31 @@ def opPass (inp impl : Json) : Except String Resp := do
     let sig := if why.startsWith "[" then ((why.splitOn "]").head!.drop 1).toString else "pass"
     pure { allowed := some true, spec := some false, why := why, extra := some (jObj [("signature", jStr sig)]) }
 
+/-- `c01.existing`: one node, one pod without inter-pod constraints, no new capacity possible: is the pod placed on the
+    node?  Model = `tryExisting (viewNode …)`; spec = admissibility of the placement the real scheduler made. -/
+def opExisting (inp impl : Json) : Except String Resp := do
+  let s ← scenario inp
+  if (fldOpt impl "panic").isSome then return { allowed := some false, spec := some false, why := "the scheduler panicked" }
+  let out ← outcome impl
+  let n ← match s.nodes with | [n] => pure n | _ => throw "c01.existing: exactly one node expected"
+  let p ← match s.pods with | [p] => pure p | _ => throw "c01.existing: exactly one pod expected"
+  let tolPNS := s.pools.any (fun pl => pl.taints.any (fun t => t.effect == "PreferNoSchedule"))
+  let fuel := p.required.length + p.preferred.length + 3
+  let placedModel := match Karp.Sched.viewNode s n with
+    | none => false
+    | some ex => !n.deleting && Karp.Sched.tryExisting fuel ex (Karp.Sched.podSpecOf p) s.ignorePreferences tolPNS
+  let placedImpl := !out.existing.isEmpty
+  let cands := scenarioCandidates s out
+  let (ok, why, sig) := match outcomeOK s out cands with
+    | none => (true, "", "")
+    | some w => (false, w, if w.startsWith "[" then ((w.splitOn "]").head!.drop 1).toString else "existing")
+  let why := if ok && placedModel != placedImpl then s!"model says placed = {placedModel}, the real scheduler placed = {placedImpl}" else why
+  pure { allowed := some (placedModel == placedImpl), spec := some ok, why := why,
+         extra := if ok then none else some (jObj [("signature", jStr sig)]) }
+
 def handle : Handler := fun op inp impl =>
   match op with
+  | "c01.existing" => opExisting inp impl
   | "c01.pass" => opPass inp impl
   | _ => .error s!"unknown op {op}"
 
